@@ -34,3 +34,10 @@ Fixpoint ra_run (cur : ginfo) (evs : list reshare_ev) (obs : list ginfo) : bool 
 
 Definition ok_apply (c : racase) : bool := ra_run (ra_cur c) (ra_evs c) (ra_obs c).
 Definition mismatches_apply (cs : list racase) : list Z := mism_from ok_apply 0 cs.
+
+(* a fresh node is handed the output of epoch [jn_epoch] (it is in the new group, it was in no
+   previous one) at time [jn_now]; [jn_ran]: no error came back and the beacon loop is running *)
+Record jncase := mkJN { jn_epoch : Z; jn_genesis : Z; jn_now : Z; jn_ran : bool }.
+Definition ok_join (c : jncase) : bool := Bool.eqb (join_runs (jn_epoch c) (jn_genesis c) (jn_now c)) (jn_ran c).
+Definition mismatches_join (cs : list jncase) : list Z := mism_from ok_join 0 cs.
+
